@@ -215,6 +215,32 @@ pub fn run(prop: &str, tier: &str, replay: Option<&str>) -> i32 {
                 Ok(Ok((ca_der, leaf_der, leaf2_der, leaf3_der))) => {
                     out.digest = fnv(&decode_cert(&leaf_der).value.map(|v| v.tbs_raw).unwrap_or_default());
                     if let Some(l3) = &leaf3_der {
+                        // ... and that certificate (self-issued, not self-signed; it carries the PARENT's key identifier as
+                        // AKI and its own as SKI) imported and used as an issuer for its own key: what is issued under the
+                        // imported parameters points at the certificate's OWN key identifier
+                        let own_ski = decode_cert(l3).value.and_then(|a| {
+                            a.extensions.iter().flatten().find_map(|e| match &e.parsed {
+                                ExtVal::Ski(k) => Some(k.clone()),
+                                _ => None,
+                            })
+                        });
+                        if let (Some(own), Ok(Ok(p3))) = (own_ski, guarded(|| rcgen::CertificateParams::from_ca_cert_der(&l3.clone().into()))) {
+                            if let Ok(Ok((ca3_kid, leaf4))) = guarded(|| {
+                                let ca3 = p3.self_signed(&leaf_kp)?;
+                                let leaf4 = to_params(&leaf_state(&KeyIdSpec::Sha256)).unwrap().signed_by(&ca_kp, &ca3, &leaf_kp)?;
+                                Ok::<_, rcgen::Error>((ca3.key_identifier(), leaf4.der().to_vec()))
+                            }) {
+                                let aki4 = decode_cert(&leaf4).value.and_then(|a| {
+                                    a.extensions.iter().flatten().find_map(|e| match &e.parsed {
+                                        ExtVal::Aki(k) => Some(k.clone()),
+                                        _ => None,
+                                    })
+                                });
+                                if ca3_kid != own || aki4.as_deref() != Some(own.as_slice()) {
+                                    out.findings.push(Finding::new("IMPORT-REISSUE-SKI", "self-issued CA imported", format!("the imported certificate's own subject key identifier is {:02x?}; re-issued it identifies itself as {:02x?} and a leaf under it points at {:02x?}", own, ca3_kid, aki4)));
+                                }
+                            }
+                        }
                         let mut f3 = Vec::new();
                         // webpki judges end entities only and this is a CA certificate: OpenSSL and the byte-level checks
                         judge_chain(l3, &ca_der, true, true, false, &mut f3);
